@@ -826,6 +826,7 @@ class C17(Property):
                 else:
                     return None
         elif t == 'm2m':
+            toks.append('X/' + (','.join(map(str, self._m2m_probe(case))) or '-'))
             for op in case['ops']:
                 o = op[0]
                 if o == 'new':
@@ -970,13 +971,26 @@ class C17(Property):
             out.append(rec)
         return out
 
+    @staticmethod
+    def _m2m_item(x, k):
+        try:
+            return sorted(oid(v) for v in x[k])
+        except KeyError:
+            return 'X'
+
     def _m2m_dump(self, x, probe):
         keys = [oid(k) for k in x.keys()]
         return {'keys': keys, 'iter': [oid(k) for k in x], 'len': len(x),
                 'grp': [[oid(k), sorted(oid(v) for v in x[k])] for k in x.keys()],
                 'pairs': [[oid(k), oid(v)] for k, v in x.iteritems()],
                 'get': [[i, sorted(oid(v) for v in x.get(mk(i, i)))] for i in probe],
-                'has': [[i, 1 if mk(i, i + 1) in x else 0] for i in probe]}
+                'has': [[i, 1 if mk(i, i + 1) in x else 0] for i in probe],
+                'item': [[i, self._m2m_item(x, mk(i, i + 2))] for i in probe]}
+
+    def _m2m_probe(self, case):
+        # reader probes: every id the history mentions plus two it does not
+        used = {i for i in self._ids_in(case['ops'], set()) if i < len(OBJ)}
+        return sorted(used | set([i for i in range(NSMALL) if i not in used][:2]))
 
     @staticmethod
     def _ids_in(z, acc):
@@ -990,9 +1004,7 @@ class C17(Property):
     def impl_m2m(self, case):
         from boltons.dictutils import ManyToMany
         regs, out = [], []
-        used = {i for i in self._ids_in(case['ops'], set()) if i < len(OBJ)}
-        # reader probes: every id the history mentions plus two it does not
-        probe = sorted(used | set([i for i in range(NSMALL) if i not in used][:2]))
+        probe = self._m2m_probe(case)
 
         def held(x):
             return [x, x.inv]
@@ -1258,10 +1270,19 @@ class C17(Property):
 
             def prs(d):
                 return self._rp(sorted(d['pairs'], key=lambda p: (self._key(p[0]), self._key(p[1]))))
+
+            def srt(xs):
+                return '.'.join(map(str, sorted(xs, key=self._key))) or '-'
+
+            def rd(d):
+                # the readers on the probe keys: len ~ keys() ~ get(k) ~ k in m ~ m[k] (X = KeyError)
+                return '%d~%s~%s~%s~%s' % (d['len'], srt(d['keys']), ','.join(srt(g) for _, g in d['get']),
+                                           ''.join(str(h) for _, h in d['has']),
+                                           ','.join('X' if g == 'X' else srt(g) for _, g in d['item']))
             for rec in obs:
                 parts = [self._ret(rec)]
                 for d in rec.get('dump', []):
-                    parts.append('F%s/P%s/I%s/Q%s' % (grp(d[0]), prs(d[0]), grp(d[1]), prs(d[1])))
+                    parts.append('F%s/P%s/I%s/Q%s/Z%s/z%s' % (grp(d[0]), prs(d[0]), grp(d[1]), prs(d[1]), rd(d[0]), rd(d[1])))
                 # the model side runs two machines (heap-level and by-value) and says whether they agree (V1) and
                 # whether every set object is referenced once only (S1); the implementation has nothing to add
                 parts.append('V1S1')
@@ -1537,6 +1558,7 @@ class C17(Property):
                     if len(pairs) != len(v['pairs']) or len(set(keys)) != len(keys) or v['len'] != len(keys) \
                             or v['iter'] != keys or pairs != {(k, x) for k, vs in v['grp'] for x in vs} \
                             or any(g != grp.get(j, []) for j, g in v['get']) \
+                            or any(g != grp.get(j, 'X') for j, g in v['item']) \
                             or any(h != (1 if j in grp else 0) for j, h in v['has']):
                         return Failure('views', '%s: %s side readers disagree with each other: %r' % (who, name, v))
                     sides.append(pairs)
